@@ -1,4 +1,4 @@
-From SV Require Import Model.Base Model.F64 Model.Throttle Model.Hotspot Spec.C07Spec Spec.C07SpecExec
+From SV Require Import Model.Base Model.F64 Model.Throttle Model.Hotspot Spec.C07Spec Spec.C07SpecExec Spec.C05hSpec Spec.MultiSpec
   Run.Common Run.RunThr Run.RunHot.
 Open Scope Z_scope.
 
@@ -11,11 +11,8 @@ Definition spec_c07_flow (co : tcase * list Z) : bool :=
       match decode_t (tc_base_ns c) (tc_ops c) rest with
       | None => false
       | Some obs =>
-          match tw_ctls w with
-          | [(r, s)] => if existsb (fun o => match o with TOPanic => true | _ => false end) obs then true
-                        else ok_c07_flow r s (tc_base_ns c) (tc_ops c) obs
-          | _ => true
-          end
+          if existsb (fun o => match o with TOPanic => true | _ => false end) obs then true
+          else ok_c07_flow_multi (tw_ctls w) (tc_base_ns c) (tc_ops c) obs
       end
   end.
 
